@@ -60,6 +60,63 @@ theorem restore_never_panics (p : Profile) (hW : C08.WideEnough p) (c : List (Bi
 /-- the pending count of the decoded state is < 32 whatever the count field says -/
 theorem decoded_count_lt (c : List (BitVec 8)) : (P.decodeAbs c).2.length < 32 := P.decode_pending_lt c
 
+theorem decode_split (lanes buf cnt : List (BitVec 8)) (hl : lanes.length = 128) (hb : buf.length = 32) :
+    P.decodeAbs (lanes ++ (buf ++ cnt)) =
+      (⟨P.v4OfBytes lanes, P.v4OfBytes (lanes.drop 32), P.v4OfBytes (lanes.drop 64), P.v4OfBytes (lanes.drop 96)⟩,
+        buf.take (min (le32 cnt).toNat 31)) := by
+  have d128 : List.drop 128 (lanes ++ (buf ++ cnt)) = buf ++ cnt := by
+    rw [List.drop_append_of_le_length (by omega), List.drop_of_length_le (by omega)]; rfl
+  have d160 : List.drop 160 (lanes ++ (buf ++ cnt)) = cnt := by
+    show List.drop (128 + 32) _ = _
+    rw [← List.drop_drop, d128, List.drop_append_of_le_length (by omega), List.drop_of_length_le (by omega)]; rfl
+  have t32 : List.take 32 (buf ++ cnt) = buf := by
+    rw [List.take_append_of_le_length (by omega), List.take_of_length_le (by omega)]
+  simp only [P.decodeAbs, d128, d160, t32, Prod.mk.injEq, and_true]
+  simp only [P.v4OfBytes, P.dataToLanes, le64, List.drop_drop, List.getD_eq_getElem?_getD, List.getElem?_drop]
+  simp [List.getElem?_append_left, hl]
+
+/-- which of the 164 bytes matter: two arrays with the same 128 lane bytes, the same clamped count and the same first
+`count` buffer bytes restore to the same logical state — stale buffer bytes beyond the count and count values above 31
+are ignored (on every back end, by `restored_inv`) -/
+theorem stale_bytes_ignored (lanes buf1 buf2 cnt1 cnt2 : List (BitVec 8)) (hl : lanes.length = 128)
+    (hb1 : buf1.length = 32) (hb2 : buf2.length = 32)
+    (hn : min (le32 cnt1).toNat 31 = min (le32 cnt2).toNat 31)
+    (hp : buf1.take (min (le32 cnt1).toNat 31) = buf2.take (min (le32 cnt1).toNat 31)) :
+    P.decodeAbs (lanes ++ (buf1 ++ cnt1)) = P.decodeAbs (lanes ++ (buf2 ++ cnt2)) := by
+  rw [decode_split _ _ _ hl hb1, decode_split _ _ _ hl hb2, ← hn, hp]
+
+/-- hasher-level form: the two arrays restored on any two back ends give hashers that agree on every later digest,
+checkpoint and `finish` after any history -/
+theorem restore_ignores_stale (b1 b2 : Backend) (lanes buf1 buf2 cnt1 cnt2 : List (BitVec 8)) (hl : lanes.length = 128)
+    (hb1 : buf1.length = 32) (hb2 : buf2.length = 32) (hc1 : cnt1.length = 4) (hc2 : cnt2.length = 4)
+    (hn : min (le32 cnt1).toNat 31 = min (le32 cnt2).toNat 31)
+    (hp : buf1.take (min (le32 cnt1).toNat 31) = buf2.take (min (le32 cnt1).toNat 31))
+    (h1 h2 : Hasher) (e1 : Hasher.fromCheckpoint b1 (lanes ++ (buf1 ++ cnt1)) = some h1)
+    (e2 : Hasher.fromCheckpoint b2 (lanes ++ (buf2 ++ cnt2)) = some h2) (hist : List (List (BitVec 8))) :
+    (∀ w, (hist.foldl Hasher.append h1).finalize w = (hist.foldl Hasher.append h2).finalize w) ∧
+    (hist.foldl Hasher.append h1).checkpoint = (hist.foldl Hasher.append h2).checkpoint ∧
+    (hist.foldl Hasher.append h1).finalize64 = (hist.foldl Hasher.append h2).finalize64 := by
+  have r1 := Hasher.fromCheckpoint_abs b1 _ (by simp only [List.length_append]; omega) h1 e1
+  have r2 := Hasher.fromCheckpoint_abs b2 _ (by simp only [List.length_append]; omega) h2 e2
+  exact Hasher.obs_eq h1 h2 r1.2 r2.2
+    (by rw [r1.1, r2.1]; exact stale_bytes_ignored lanes buf1 buf2 cnt1 cnt2 hl hb1 hb2 hn hp) hist
+
+/-- the checkpoint of a hasher restored from ANY 164 bytes is the normal form `encode (decode c)` of those bytes, the
+same on every back end; re-restoring it is a fixed point (`C14.idempotent`) -/
+theorem recheckpoint_normal_form (b : Backend) (c : List (BitVec 8)) (hc : c.length = 164) (h : Hasher)
+    (hh : Hasher.fromCheckpoint b c = some h) :
+    h.checkpoint = P.encodeAbs (P.decodeAbs c) ∧ h.checkpoint.length = 164 := by
+  have r := Hasher.fromCheckpoint_abs b c hc h hh
+  have e : h.checkpoint = P.encodeAbs (P.decodeAbs c) := by rw [Hasher.checkpoint_abs h r.2, r.1]
+  refine ⟨e, ?_⟩
+  rw [e]
+  exact P.encode_length _ (Nat.le_of_lt (P.decode_pending_lt c))
+
+/-- non-vacuity: count 0xFFFFFFFF with garbage beyond byte 31 of the buffer and count 31 with zeros there meet the
+premises of `stale_bytes_ignored` -/
+example : min (le32 (List.replicate 4 0xff#8)).toNat 31 = min (le32 [31#8, 0, 0, 0]).toNat 31 ∧
+    (List.replicate 32 0xaa#8).take 31 = (List.replicate 31 0xaa#8 ++ [0#8]).take 31 := by decide
+
 /-- the count clamp of the pinned tree (`min(len, 32)`): a full buffer, `buf_index = 32` -/
 def legacyFromCheckpoint (data : List (BitVec 8)) : P.State :=
   let p := P.fromCheckpoint data
